@@ -310,6 +310,8 @@ void HttpMessage::readBody()
 		int maxToRead = _socket->available(), bytesRead = 0;
 		if (maxToRead <= 0 && !chunked) // readable but nothing to read: the peer closed before sending the whole body
 			break;
+		if (!chunked && size > 0 && maxToRead > size) // what follows the announced length belongs to the next message
+			maxToRead = size;
 		if (chunked)
 		{
 			String chunkSize = _socket->readLine();
